@@ -851,17 +851,22 @@ def looseTimex (s : Nat) (padded : Bool := false) : Str :=
   if padded then 84 :: fmtD 2 hour ++ (if minute > 0 then sColon ++ fmtD 2 minute else [])
   else 84 :: decStr hour ++ (if minute > 0 then sColon ++ decStr minute else [])
 
-/-- `PT{hours}H{minutes}M` of `merge_two_time_points`; `none` = the span is not a whole number of minutes (the code
-then prints a float) -/
-def spanHM (diff : Nat) : Option Str :=
-  if diff % 60 ≠ 0 then none
-  else
-    let hours := diff / 3600
-    let minutes := (diff / 60) % 60
-    some ([80, 84] ++ (if hours > 0 then decStr hours ++ [72] else []) ++ (if 0 < minutes then decStr minutes ++ [77] else []))
+/-- `PT{hours}H{minutes}M` of `merge_two_time_points`. As found (`secs = false`) the minutes are the *float*
+`total_seconds() / 60 % 60`: for a span with seconds Python prints its `repr` (`0.5`, `0.3333333333333144`) — the float
+arithmetic and `repr` of the running interpreter are an input, `fl diff` (finding `timerange-float-minutes`).
+`secs = true` is the repaired variant: integer minutes and an `…S` component. -/
+def spanText (fl : Nat → Str) (secs : Bool) (diff : Nat) : Str :=
+  let hours := diff / 3600
+  let minutes := (diff / 60) % 60
+  let seconds := diff % 60
+  [80, 84] ++ (if hours > 0 then decStr hours ++ [72] else []) ++
+    (if secs then (if 0 < minutes then decStr minutes ++ [77] else []) ++ (if 0 < seconds then decStr seconds ++ [83] else [])
+     else if seconds = 0 then (if 0 < minutes then decStr minutes ++ [77] else [])
+     else fl diff ++ [77])
 
-/-- `merge_two_time_points` once `pr1`, `pr2` are there. Errors: `"Float"` = a span with seconds (not modelled). -/
-def mergeTwoTimePoints (s1 s2 : Slot) (padded : Bool := false) : Except String PRes :=
+/-- `merge_two_time_points` once `pr1`, `pr2` are there. -/
+def mergeTwoTimePoints (s1 s2 : Slot) (padded : Bool := false) (fl : Nat → Str := fun _ => []) (secs : Bool := false) :
+    Except String PRes :=
   match s1.res, s2.res with
   | some r1, some r2 =>
     let b := r1.future.secs
@@ -871,11 +876,8 @@ def mergeTwoTimePoints (s1 s2 : Slot) (padded : Bool := false) : Except String P
     let (e, tx2) := if amb2 && e ≤ b && b < e + 43200 then (e + 43200, looseTimex (e + 43200) padded) else (e, s2.timex)
     let (b, tx1) := if amb1 && e > b + 43200 then (b + 43200, looseTimex (b + 43200) padded) else (b, s1.timex)
     let e := if e < b then e + 86400 else e
-    match spanHM (e - b) with
-    | none => .error "Float"
-    | some span =>
-      .ok { success := true, timex := [40] ++ tx1 ++ [44] ++ tx2 ++ [44] ++ span ++ [41],
-            comment := if amb1 && amb2 then sAmPm else [], startS := b, endS := e }
+    .ok { success := true, timex := [40] ++ tx1 ++ [44] ++ tx2 ++ [44] ++ spanText fl secs (e - b) ++ [41],
+          comment := if amb1 && amb2 then sAmPm else [], startS := b, endS := e }
   | _, _ => .ok {}
 
 /-- `format_time` of a start / end (`datetime` arithmetic wraps into the next day) -/
